@@ -109,7 +109,7 @@ struct RenderObs { files: Vec<(String, String)>, pos: Option<RPos>, msg: String,
 struct CaseOut { stages: Vec<Stage>, renders: Vec<RenderObs>, n_diag: usize, checked_ok: bool, cost: Option<(usize, usize)> }
 
 impl CaseOut {
-    fn ok(&mut self, name: &'static str) { self.stages.push(Stage { name, res: "ok", panic: None, tags: vec![] }); }
+    fn ok(&mut self, name: &'static str) { if std::env::var_os("C08_CHILD").is_some() { eprintln!("stage {name}"); } self.stages.push(Stage { name, res: "ok", panic: None, tags: vec![] }); }
     fn err(&mut self, name: &'static str) { self.stages.push(Stage { name, res: "err", panic: None, tags: vec![] }); }
     fn panic(&mut self, name: &'static str, p: PanicAt, tags: Vec<&'static str>) { self.stages.push(Stage { name, res: "panic", panic: Some(p), tags }); }
 }
@@ -408,6 +408,7 @@ fn run_op_case(sdl: &str, ops: &[String], keep_renders: bool, allow_cyclic: bool
         }
     }
     // check
+    if std::env::var_os("C08_CHILD").is_some() { eprintln!("stage check_operation (started)"); }
     let ctx = OperationCheckContext::new(&schema);
     let mut n_err = 0;
     for doc in full.iter() {
@@ -419,6 +420,7 @@ fn run_op_case(sdl: &str, ops: &[String], keep_renders: bool, allow_cyclic: bool
     if n_err > 0 { out.err("check_operation"); return out; }
     out.ok("check_operation");
     out.checked_ok = true;
+    if std::env::var_os("C08_CHILD").is_some() { eprintln!("stage generate (started)"); }
     // generate
     for doc in full.iter().take(1) {
         let (unspread, _) = doc_features(doc);
@@ -770,7 +772,7 @@ impl Run {
         std::fs::write(dir.join("schema.graphql"), sdl).unwrap();
         for (i, t) in ops.iter().enumerate() { std::fs::write(dir.join(format!("q{i}.graphql")), t).unwrap(); }
         let exe = std::env::current_exe().unwrap();
-        let o = std::process::Command::new(exe).arg("--child-op").arg(&dir).arg(ops.len().to_string()).env("RUST_BACKTRACE", "0").output();
+        let o = std::process::Command::new(exe).arg("--child-op").arg(&dir).arg(ops.len().to_string()).env("RUST_BACKTRACE", "0").env("C08_CHILD", "1").output();
         let _ = std::fs::remove_dir_all(&dir);
         match o {
             Err(e) => self.fail("child-spawn".into(), format!("cannot run the child process: {e}"), json!({"input": input})),
@@ -785,9 +787,11 @@ impl Run {
                 } else {
                     let overflow = err.contains("overflowed its stack");
                     self.note(stream, format!("child-process:abort{}", if overflow { ":stack-overflow" } else { "" }));
-                    let class = if overflow { "abort:stack-overflow:print_types_for_operation_document:unspread-fragment-cycle".to_string() } else { format!("abort:{:?}", o.status.code()) };
-                    self.fail(class, format!("print_types_for_operation_document aborts the process ({}) on a document check accepts: {}", if overflow { "stack overflow" } else { "abnormal exit" }, plain(&err)),
-                              json!({"stream": stream, "kind": kind, "stage": "print_types_for_operation_document", "input": input, "stderr_head": err.chars().take(300).collect::<String>()}));
+                    // the child prints the stages it completed only at the end; the last line of "stage ..." markers on stderr names where it died
+                    let last = err.lines().filter(|l| l.starts_with("stage ")).last().unwrap_or("stage ?").trim_start_matches("stage ").to_string();
+                    let class = if overflow { format!("abort:stack-overflow:{last}") } else { format!("abort:{:?}:{last}", o.status.code()) };
+                    self.fail(class, format!("{kind}: the pipeline aborts the process ({}) in or after stage '{last}': {}", if overflow { "stack overflow" } else { "abnormal exit" }, plain(err.lines().filter(|l| !l.starts_with("stage ")).next().unwrap_or(""))),
+                              json!({"stream": stream, "kind": kind, "stage": last, "input": input, "stderr_head": err.chars().take(300).collect::<String>()}));
                 }
             }
         }
@@ -877,6 +881,24 @@ fn main() {
         let ops = vec![t.to_string(), "fragment FA on Query { i }\nfragment FB on Query { i }\n".to_string()];
         run.case("corpus", "operation", Job::Op(FIXED_SCHEMA.into(), ops), json!({"operation": t, "why": why, "schema": "FIXED_SCHEMA"}));
         run.parse_case("corpus", false, t);
+    }
+    // inputs that must run in a child process: a regression here is a stack overflow, which aborts
+    {
+        let sub_schema = "type Query { i: Int }\ntype Subscription { s: Int t: Int }\n";
+        for (t, why) in [
+            ("subscription S { ...A }\nfragment A on Subscription { s ...B }\nfragment B on Subscription { ...A }\n", "subscription spreading a fragment cycle of length 2"),
+            ("subscription S { ...A }\nfragment A on Subscription { ...B }\nfragment B on Subscription { ...C }\nfragment C on Subscription { s ...A }\n", "subscription spreading a fragment cycle of length 3"),
+            ("subscription S { ... { ...A } }\nfragment A on Subscription { s ...A }\n", "subscription spreading a self-recursive fragment through an inline fragment"),
+            ("query Q { ...A }\nfragment A on Query { i ...B }\nfragment B on Query { ...A }\n", "query spreading a fragment cycle of length 2"),
+        ] {
+            run.evaluations += 1;
+            println!("child-process case: {why}");
+            run.child_case("corpus", "operation-in-child", sub_schema, &[t.to_string()], &json!({"schema": sub_schema, "operation": t, "why": why}));
+        }
+    }
+    // @skip / @include redefined by the schema without an `if` argument (fixed 021e9ac: the printer panicked)
+    for (sdl, t) in [("directive @skip on FIELD\ntype Query { a: Int }\n", "query Q { a @skip }"), ("directive @include on FIELD | FRAGMENT_SPREAD | INLINE_FRAGMENT\ntype Query { a: Int }\n", "query Q { a @include ... @include { a } }")] {
+        run.case("corpus", "operation", Job::Op(sdl.into(), vec![t.to_string()]), json!({"schema": sdl, "operation": t, "why": "@skip/@include applied without an if argument"}));
     }
     for t in ["schema: [", "schema: ./s.graphql\nextensions: {nitrogql: {generate: {mode: nope}}}", "{", "", "schema: ./s.graphql"] {
         run.case("corpus", "config", Job::Config(t.into()), json!({"config": t}));
